@@ -256,6 +256,18 @@ def wave_options(rng, k=None):
         for lane in range(k.sims):
             if not np.array_equal(port_view(w7)[:, :, lane], alone[pick[lane]][:, :, lane]):
                 return desc, f'per-simulation dataset selection (mode 1, lane {lane} -> dataset {pick[lane]}, {"GPU" if cuda else "CPU"}) differs from that dataset alone'
+        # mixed modes on one simulator: lanes in mode 0 follow the seed, lanes in mode 1 their own entry
+        mode = [rng.randint(0, 1) for _ in range(k.sims)]
+        if k.sims > 1 and len(set(mode)) == 1:
+            mode[rng.randrange(k.sims)] ^= 1
+        g2 = rng.randrange(nds)
+        ctl = np.array([pick, mode], dtype=np.int32)
+        w8 = wc.run_wavesim(k.c, dsets, k.sims, k.caps, False, False, k.s0, k.s1, k.s2, k.extra, k.tcap, cuda=cuda, simctl=ctl, seed=g2)
+        for lane in range(k.sims):
+            eff = g2 if mode[lane] == 0 else pick[lane]
+            if not np.array_equal(port_view(w8)[:, :, lane], alone[eff][:, :, lane]):
+                return desc, (f'mixed dataset selection modes {mode} (seed {g2}, entries {pick}, {"GPU" if cuda else "CPU"}): lane {lane} must use dataset {eff} '
+                              f'but differs from simulating with that dataset alone')
     return desc, None
 
 
